@@ -56,7 +56,17 @@ def extract_hdf5_datasets(filename, memmap=True):
             elif item.dtype.kind in ('V',):
                 arrays[full_path] = Table.read(item, format='hdf5')
 
-    file_handle.visititems(visitor)
+    # We iterate over the groups ourselves rather than use visititems, since
+    # the latter always visits items in alphabetical order, whereas iterating
+    # over a group preserves the order in which the items were created if the
+    # file was written with track_order=True.
+    def visit_group(group):
+        for name, item in group.items():
+            visitor(name, item)
+            if isinstance(item, h5py.Group):
+                visit_group(item)
+
+    visit_group(file_handle)
     file_handle.close()
 
     # Now create memory-mapped arrays
